@@ -386,10 +386,26 @@ func TestC11(t *testing.T) {
 			go func() { herr = e.Sub.StreamingPull(fs); close(hdone) }()
 			fs.Push(&pubsubpb.StreamingPullRequest{Subscription: sub, StreamAckDeadlineSeconds: 10, MaxOutstandingMessages: maxMsgs, MaxOutstandingBytes: maxBytes})
 			settle := func() {
-				// quiescence, allowing for the scheduled (bounded) delays only
-				for j := 0; j < 40; j++ {
+				// quiescence, allowing for the scheduled (bounded) delays only: at least 40
+				// virtual milliseconds, and on for as long as the stream keeps sending (a
+				// large window works a backlog off a few messages per fetch, every fetch
+				// with its injected delays) - a sender that spins without sending anything
+				// is not waited for
+				lastSends, idle := -1, 0
+				for j := 0; j < 20000; j++ {
 					rig.Quiesce()
 					time.Sleep(time.Millisecond)
+					led.mu.Lock()
+					n := led.sends
+					led.mu.Unlock()
+					if n != lastSends {
+						lastSends, idle = n, 0
+					} else {
+						idle++
+					}
+					if j >= 40 && idle >= 40 {
+						break
+					}
 				}
 				rig.Quiesce()
 			}
@@ -468,14 +484,21 @@ func TestC11(t *testing.T) {
 				switch a := r.Intn(10); {
 				case a < 3 && len(ids) > 0: // ack on the stream
 					sel := pick(ids)
+					// in flight until the stream has settled: a message whose lease has
+					// lapsed may be re-sent by a fetch that ran before the ack was applied
 					led.mu.Lock()
 					for _, id := range sel {
-						led.byAck[id].state = "acked"
+						led.byAck[id].state = "acking"
 					}
 					led.mu.Unlock()
 					fs.Push(&pubsubpb.StreamingPullRequest{AckIds: sel})
 					trace = append(trace, fmt.Sprintf("stream-ack %d", len(sel)))
 					settle()
+					led.mu.Lock()
+					for _, id := range sel {
+						led.byAck[id].state = "acked"
+					}
+					led.mu.Unlock()
 					freed++
 					checkStall("stream-ack")
 				case a < 5 && len(ids) > 0: // nack on the stream (zero deadline)
